@@ -616,6 +616,9 @@ def run(ctx: Ctx) -> None:
             one(case)
     ctx.compare("Fallback", cases, outs, what="fetch_next results per round + is_running")
 
+    from . import datapath  # full-stack stage: the same property through the real sourcing -> resampling -> formula stack
+    datapath.run_stage(ctx, {"C19-fallback"}, n_quick=40, n_thorough=600)
+
 
 def replay(ctx: Ctx, data: dict) -> None:
     python_flags()
